@@ -132,6 +132,14 @@ def make_data(spec, F):
             raise HarnessError("spec has data for %s which is not a databook quantity" % q)
         for pop, d in bypop.items():
             _fill_ts(D.tdve[q].ts[pop], d)
+    # quantities entered as a single "All" row (same value for every population of the type)
+    for q in data.get("all_rows") or []:
+        tdve = D.tdve[q]
+        first = list(data["q"][q].keys())[0]
+        ts_all = tdve.ts[first].copy()
+        for k in list(tdve.ts.keys()):
+            del tdve.ts[k]
+        tdve.ts["All"] = ts_all
     for tr in data.get("tr", []):
         tdc = [x for x in D.transfers if x.code_name == tr["name"]][0]
         for key, e in tr["e"].items():
